@@ -166,8 +166,61 @@ type HangCase struct {
 	Src string `json:"src"`
 }
 
+var tailTemplates = []string{
+	"var x%d = f(\n\ta,\n\tb,\nTAIL)\n",
+	"var y%d = []T{\n\t1,\n\t2,\nTAIL}\n",
+	"var z%d = T{\n\tA: 1,\nTAIL}\n",
+	"type S%d struct {\n\ta int\nTAIL}\n",
+	"type I%d interface {\n\tM()\nTAIL}\n",
+	"const (\n\tc%d = 1\nTAIL)\n",
+	"var (\n\tv%d int\nTAIL)\n",
+	"func g%d(\n\ta int,\nTAIL) {\n}\n",
+	"func h%d() {\n\ta()\nTAIL}\n",
+	"func i%d() {\n\tif x {\n\t\ta()\nTAILTAB\t}\n}\n",
+	"func j%d() {\n\tfor {\n\t\ta()\nTAILTAB\t}\n}\n",
+	"func k%d() {\n\tx := f(\n\t\ta,\nTAILTAB\t)\n}\n",
+	"func l%d() {\n\tgo func() {\n\t\ta()\nTAILTAB\t}()\n}\n",
+}
+
+// genTails: comments (indented like the elements) between the last element of a list or block
+// and its closing delimiter — another layout family that go/printer lays out by column and that
+// dave/dst reproduces on the pinned tree (65 of 65 canonical combinations in a probe).
+func genTails(t *rapid.T) (HangCase, bool) {
+	const sub = "Hanging"
+	var sb strings.Builder
+	sb.WriteString("package p\n")
+	for i, n := 0, rapid.IntRange(1, 4).Draw(t, "ndecls"); i < n; i++ {
+		tp := fmt.Sprintf(tailTemplates[rapid.IntRange(0, len(tailTemplates)-1).Draw(t, "template")], i)
+		tail := []string{"\t// t\n", "\n\t// t\n", "\t// t\n\t// u\n", "\t/* t */\n", "\t// t\n\n", ""}[rapid.IntRange(0, 5).Draw(t, "tail")]
+		if strings.Contains(tp, "TAILTAB") {
+			var t2 strings.Builder
+			for _, ln := range strings.SplitAfter(tail, "\n") {
+				if len(ln) > 1 {
+					t2.WriteString("\t")
+				}
+				t2.WriteString(ln)
+			}
+			tp = strings.Replace(tp, "TAILTAB", t2.String(), 1)
+		} else {
+			tp = strings.Replace(tp, "TAIL", tail, 1)
+		}
+		sb.WriteString("\n" + tp)
+	}
+	src := sb.String()
+	if !oracle.IsCanon([]byte(src)) {
+		h.Exclude("tail template is not a gofmt fixpoint")
+		return HangCase{}, false
+	}
+	h.Label("hanging:tails-family")
+	h.NonTrivial(sub, src)
+	return HangCase{Src: src}, true
+}
+
 func genHang(t *rapid.T) (HangCase, bool) {
 	const sub = "Hanging"
+	if rapid.IntRange(0, 2).Draw(t, "family") == 0 {
+		return genTails(t)
+	}
 	var sb strings.Builder
 	n := 0
 	id := func() int { n++; return n }
